@@ -56,8 +56,14 @@ func (dem *DepthExecutorManager) Execute() (map[string]interface{}, error) {
 	executionRequests := make([]*ExecutionRequest, 0)
 	errs := gqlerrors.ErrorList{}
 
+	// a plan without any step has nothing to execute
+	rootExecutor, ok := dem.depthExecutors[0]
+	if !ok {
+		return dem.result, nil
+	}
+
 	// for initial step construct root queries
-	for _, step := range dem.depthExecutors[0].QueryPlanSteps {
+	for _, step := range rootExecutor.QueryPlanSteps {
 		insertionPoint := []string{}
 		if step.InsertionPoint != nil {
 			insertionPoint = step.InsertionPoint
